@@ -34,7 +34,7 @@ def wfStep (sess p : Bool) (c : Ctx) : Step → Option Ctx
   | .runlockR => if c.s = .free ∧ c.r = .read then some ⟨.free, .none⟩ else none
   | .lockR    => if sess = true ∧ c.s = .free ∧ c.r = .none then some ⟨.free, .write⟩ else none
   | .unlockR  => if c.s = .free ∧ c.r = .write then some ⟨.free, .none⟩ else none
-  | .lockS    => if c.s = .free ∧ (sess = true ∨ c.r = .read) then some ⟨.held .none .normal, c.r⟩ else none
+  | .lockS    => if c.s = .free then some ⟨.held .none .normal, c.r⟩ else none
   | .unlockS  => match c.s with
       | .held _ qs => if qs ≠ .stale then some ⟨.free, c.r⟩ else none
       | .free => none
@@ -42,7 +42,7 @@ def wfStep (sess p : Bool) (c : Ctx) : Step → Option Ctx
       | .held _ qs => some ⟨.held .fresh qs, c.r⟩
       | .free => none
   | .storeReset => match c.s with
-      | .held _ qs => if sess = true then some ⟨.held .none (if qs = .empty then .empty else .stale), c.r⟩ else none
+      | .held _ qs => some ⟨.held .none (if qs = .empty then .empty else .stale), c.r⟩
       | .free => none
   | .persistIncr => match c.s with
       | .held .fresh qs => if p = true then some ⟨.held .used qs, c.r⟩ else none
@@ -51,7 +51,7 @@ def wfStep (sess p : Bool) (c : Ctx) : Step → Option Ctx
       | .held .fresh qs => if p = false then some ⟨.held .used qs, c.r⟩ else none
       | _ => none
   | .enqueue => match c.s with
-      | .held .used qs => if qs ≠ .stale ∧ c.r ≠ .write then some ⟨.held .none .normal, c.r⟩ else none
+      | .held .used qs => if qs ≠ .stale ∧ c.r ≠ .write ∧ (sess = true ∨ c.r = .read) then some ⟨.held .none .normal, c.r⟩ else none
       | _ => none
   | .enqueueDup _ => match c.s with
       | .held rs qs => if sess = true ∧ qs ≠ .stale then some ⟨.held rs .normal, c.r⟩ else none
@@ -92,8 +92,8 @@ theorem wf_cons {sess p : Bool} {c : Ctx} {st : Step} {l : List Step} (h : wf se
   | none => simp [hs] at h
   | some c' => exact ⟨c', rfl, by simpa [hs, wf] using h⟩
 
-/-- a thread that holds sendMutex is the session goroutine or holds resendMutex for reading -/
-def CtxValid (sess : Bool) (c : Ctx) : Prop := c.s ≠ .free → (sess = true ∨ c.r = .read)
+/-- only the session goroutine ever write-holds resendMutex -/
+def CtxValid (sess : Bool) (c : Ctx) : Prop := c.r = .write → sess = true
 
 theorem wfStep_valid {sess p : Bool} {c c' : Ctx} {st : Step} (h : wfStep sess p c st = some c')
     (hv : CtxValid sess c) : CtxValid sess c' := by
@@ -252,13 +252,14 @@ structure InvM (p : Bool) (n0 : Nat) (s : State) (m : MState) : Prop where
 
 def Inv (p : Bool) (n0 : Nat) (s : State) : Prop := ∃ m, InvM p n0 s m
 
-/-- a thread other than the one that moved keeps its facts when nothing it depends on changed -/
+/-- a thread other than the one that moved keeps its facts when what it knows as holder of sendMutex carries over -/
 theorem ThreadOK.frame {p : Bool} {s s' : State} {m m' : MState} {u : Nat} (h : ThreadOK p s m u)
     (hth : s'.th u = s.th u)
     (hS : s'.holderS = some u ↔ s.holderS = some u)
     (hW : s'.writerR = some u ↔ s.writerR = some u)
     (hR : u ∈ s.readersR → u ∈ s'.readersR)
-    (hV : s.holderS = some u → view s' m' = view s m) : ThreadOK p s' m' u := by
+    (hV : s.holderS = some u → ∀ rs qs, HeldOK p (s.th u).reg (view s m) rs qs → HeldOK p (s.th u).reg (view s' m') rs qs) :
+    ThreadOK p s' m' u := by
   obtain ⟨c, hc⟩ := h
   refine ⟨c, ?_⟩
   constructor
@@ -269,16 +270,7 @@ theorem ThreadOK.frame {p : Bool} {s s' : State} {m m' : MState} {u : Nat} (h : 
   · exact hc.valid
   · intro rs qs hq
     have : s.holderS = some u := hc.hS.1 (by rw [hq]; simp)
-    rw [hth, hV this]; exact hc.held rs qs hq
-
-/-- if resendMutex has no readers, only the session goroutine can hold sendMutex -/
-theorem holder_zero_of_no_readers {p : Bool} {s : State} {m : MState} (hT : ∀ u, ThreadOK p s m u)
-    (hr : s.readersR = []) {h : Nat} (hh : s.holderS = some h) : h = 0 := by
-  obtain ⟨c, hc⟩ := hT h
-  have h1 : c.s ≠ .free := hc.hS.2 hh
-  rcases hc.valid h1 with h2 | h2
-  · simpa using h2
-  · have := hc.hR h2; rw [hr] at this; simp at this
+    rw [hth]; exact hV this rs qs (hc.held rs qs hq)
 
 /-! ### flushing a prefix of an ordered queue is accepted by the monitor -/
 
@@ -385,20 +377,42 @@ theorem others_lock {p : Bool} {s s' : State} {m : MState} {t : Nat} (hT : ∀ u
     (hR : ∀ u, u ≠ t → u ∈ s.readersR → u ∈ s'.readersR)
     (hV : view s' m = view s m) :
     ∀ u, u ≠ t → ThreadOK p s' m u :=
-  fun u hu => (hT u).frame (hth u hu) (hS u hu) (hW u hu) (hR u hu) (fun _ => hV)
+  fun u hu => (hT u).frame (hth u hu) (hS u hu) (hW u hu) (hR u hu) (fun _ rs qs h => by rw [hV]; exact h)
 
-/-- a thread inside sendMutex that is not the resend writer excludes every resend writer -/
+/-- a thread that may enqueue a first-time message (the session goroutine outside a replay, or a reader of
+    resendMutex) excludes every resend writer -/
 theorem no_writer_of_held {p : Bool} {s : State} {m : MState} {t : Nat} {c : Ctx} (hG : Glob s m)
-    (hc : ThreadOKc p s m t c) (h1 : c.s ≠ .free) (h2 : c.r ≠ .write) : s.writerR = none := by
+    (hc : ThreadOKc p s m t c) (h2 : c.r ≠ .write) (h3 : (t == 0) = true ∨ c.r = .read) : s.writerR = none := by
   cases hw : s.writerR with
   | none => rfl
   | some w =>
     obtain ⟨hw0, hr⟩ := hG.wr w hw
     have hne : t ≠ w := fun h => h2 (hc.hW.2 (by rw [hw, h]))
-    rcases hc.valid h1 with h3 | h3
+    rcases h3 with h3 | h3
     · have : t = 0 := by simpa using h3
       omega
     · have := hc.hR h3; rw [hr] at this; simp at this
+
+/-- what a holder of sendMutex knows survives the start and the end of a replay by another thread -/
+theorem QOK.lockR {p : Bool} {v : View} {b : Nat} (h : QOK p v b) :
+    QOK p { v with rcount := v.rcount + 1, wr := true, inRegion := false } b := by
+  refine ⟨h.inc, h.sav, fun e he r hr => Nat.le_succ_of_le (h.tags e he r hr), fun _ => ?_, (fun h => by cases h)⟩
+  refine TailDup.of_notag (fun e he hr => ?_)
+  have := h.tags e he _ hr
+  simp at this
+  omega
+
+theorem QOK.unlockR {p : Bool} {v : View} {b : Nat} (h : QOK p v b) :
+    QOK p { v with wr := false, inRegion := false } b :=
+  ⟨h.inc, h.sav, h.tags, (fun h => by cases h), (fun h => by cases h)⟩
+
+theorem HeldOK.lockR {p : Bool} {reg : Nat} {v : View} {rs : RS} {qs : QS} (h : HeldOK p reg v rs qs) :
+    HeldOK p reg { v with rcount := v.rcount + 1, wr := true, inRegion := false } rs qs :=
+  ⟨h.fresh, h.used, h.lo, fun hq => (h.q hq).lockR, h.emp⟩
+
+theorem HeldOK.unlockR {p : Bool} {reg : Nat} {v : View} {rs : RS} {qs : QS} (h : HeldOK p reg v rs qs) :
+    HeldOK p reg { v with wr := false, inRegion := false } rs qs :=
+  ⟨h.fresh, h.used, h.lo, fun hq => (h.q hq).unlockR, h.emp⟩
 
 section cases
 variable {p : Bool} {n0 : Nat} {s : State} {m : MState} {t : Nat} {c c' : Ctx} {rest : List Step}
@@ -487,15 +501,6 @@ theorem case_runlockR (hI : InvM p n0 s m) (htodo : (s.th t).todo = .runlockR ::
       · exact fun u hu h => (List.mem_erase_of_ne hu).2 h
       · rfl
 
-theorem holder_none_of_no_readers (hI : InvM p n0 s m) (hr : s.readersR = []) (ht : t = 0)
-    (hc : ThreadOKc p s m t c) (hf : c.s = .free) : s.holderS = none := by
-  cases hh : s.holderS with
-  | none => rfl
-  | some h =>
-    have h0 := holder_zero_of_no_readers hI.thr hr hh
-    have : c.s ≠ .free := hc.hS.2 (by rw [hh, h0, ht])
-    exact absurd hf this
-
 theorem case_lockR (hI : InvM p n0 s m) (htodo : (s.th t).todo = .lockR :: rest) (hc : ThreadOKc p s m t c)
     (hws : wfStep (t == 0) p c .lockR = some c') (hwf : wf (t == 0) p c' rest = true) : Inv p n0 (step1 s t) := by
   rw [step1_cons htodo]
@@ -511,7 +516,7 @@ theorem case_lockR (hI : InvM p n0 s m) (htodo : (s.th t).todo = .lockR :: rest)
   · rw [if_pos hen]
     dsimp only
     obtain ⟨hwn, hrn⟩ := hen
-    have hnone : s.holderS = none := holder_none_of_no_readers hI hrn ht hc rfl
+    have hnh : s.holderS ≠ some t := fun h => (hc.hS.2 h) rfl
     have hrh : m.rheld = false := by rw [hI.glob.rheld, hwn]; rfl
     have hir : m.inRegion = false := by
       cases h : m.inRegion with
@@ -519,7 +524,6 @@ theorem case_lockR (hI : InvM p n0 s m) (htodo : (s.th t).todo = .lockR :: rest)
       | true => have := hI.glob.reg h; rw [hrh] at this; cases this
     let m' : MState := { m with rid := m.rid + 1, rheld := true, inRegion := false }
     have hstep : mrun p m [Ev.lockR] = .ok m' := by simp [mrun, mstep, hrh, m']
-    have hQ := hI.free hnone
     refine ⟨m', mrun_snoc_ok hI.run hstep, ⟨hI.glob.cur, hI.glob.saved, ?_, rfl, fun _ => rfl, ?_⟩, ?_, ?_⟩
     · show m.rid + 1 = s.rcount + 1
       rw [hI.glob.rid]
@@ -530,21 +534,20 @@ theorem case_lockR (hI : InvM p n0 s m) (htodo : (s.th t).todo = .lockR :: rest)
       by_cases hu : u = t
       · subst hu
         refine ⟨⟨.free, .write⟩, ⟨by simpa using hwf, ?_, ?_, ?_, ?_, ?_⟩⟩
-        · simp [hnone]
+        · simp; exact hnh
         · simp
         · intro h; simp at h
-        · intro h; simp at h
+        · exact fun _ => h0
         · intro rs qs h; cases h
       · refine (hI.thr u).frame (upd_ne _ _ hu) Iff.rfl ?_ (fun h => h) ?_
         · show some t = some u ↔ s.writerR = some u
           rw [hwn]; simp; exact fun h => hu h.symm
-        · intro h; rw [hnone] at h; cases h
-    · intro _
-      refine ⟨hQ.inc, hQ.sav, fun e he r hr => Nat.le_succ_of_le (hQ.tags e he r hr), fun _ => ?_, (fun h => by cases h)⟩
-      refine TailDup.of_notag (fun e he hr => ?_)
-      have := hQ.tags e he _ hr
-      simp [view] at this
-      omega
+        · intro _ rs qs h
+          have := h.lockR
+          simpa [view, hwn, hir, m'] using this
+    · intro hn
+      have := (hI.free hn).lockR
+      simpa [view, hwn, hir, m'] using this
   · rw [if_neg hen]
     exact ⟨m, hI⟩
 
@@ -560,17 +563,16 @@ theorem case_unlockR (hI : InvM p n0 s m) (htodo : (s.th t).todo = .unlockR :: r
   simp only [act]
   have hw : s.writerR = some t := hc.hW.1 rfl
   obtain ⟨ht, hrn⟩ := hI.glob.wr t hw
-  have hnone : s.holderS = none := holder_none_of_no_readers hI hrn ht hc rfl
+  have hnh : s.holderS ≠ some t := fun h => (hc.hS.2 h) rfl
   let m' : MState := { m with rheld := false, inRegion := false }
   have hstep : mrun p m [Ev.unlockR] = .ok m' := by simp [mrun, mstep, m']
-  have hQ := hI.free hnone
   refine ⟨m', mrun_snoc_ok hI.run hstep, ⟨hI.glob.cur, hI.glob.saved, hI.glob.rid, rfl, (fun h => by cases h), ?_⟩, ?_, ?_⟩
   · intro w hw; cases hw
   · intro u
     by_cases hu : u = t
     · subst hu
       refine ⟨⟨.free, .none⟩, ⟨by simpa using hwf, ?_, ?_, ?_, ?_, ?_⟩⟩
-      · simp [hnone]
+      · simp; exact hnh
       · simp
       · intro h; simp at h
       · intro h; simp at h
@@ -578,9 +580,12 @@ theorem case_unlockR (hI : InvM p n0 s m) (htodo : (s.th t).todo = .unlockR :: r
     · refine (hI.thr u).frame (upd_ne _ _ hu) Iff.rfl ?_ (fun h => h) ?_
       · show none = some u ↔ s.writerR = some u
         rw [hw]; simp; exact fun h => hu h.symm
-      · intro h; rw [hnone] at h; cases h
-  · intro _
-    exact ⟨hQ.inc, hQ.sav, hQ.tags, (fun h => by cases h), (fun h => by cases h)⟩
+      · intro _ rs qs h
+        have := h.unlockR
+        simpa [view, m'] using this
+  · intro hn
+    have := (hI.free hn).unlockR
+    simpa [view, m'] using this
 
 theorem case_lockS (hI : InvM p n0 s m) (htodo : (s.th t).todo = .lockS :: rest) (hc : ThreadOKc p s m t c)
     (hws : wfStep (t == 0) p c .lockS = some c') (hwf : wf (t == 0) p c' rest = true) : Inv p n0 (step1 s t) := by
@@ -588,8 +593,7 @@ theorem case_lockS (hI : InvM p n0 s m) (htodo : (s.th t).todo = .lockS :: rest)
   obtain ⟨cs, cr⟩ := c
   simp only [wfStep] at hws
   split at hws <;> simp at hws
-  rename_i hcond
-  obtain ⟨h1, h2⟩ := hcond
+  rename_i h1
   subst h1 hws
   simp only [act]
   by_cases hen : s.holderS = none
@@ -600,7 +604,7 @@ theorem case_lockS (hI : InvM p n0 s m) (htodo : (s.th t).todo = .lockS :: rest)
     · intro u
       by_cases hu : u = t
       · subst hu
-        refine ⟨⟨.held .none .normal, cr⟩, ⟨by simpa using hwf, ?_, hc.hW, hc.hR, fun _ => h2, ?_⟩⟩
+        refine ⟨⟨.held .none .normal, cr⟩, ⟨by simpa using hwf, ?_, hc.hW, hc.hR, hc.valid, ?_⟩⟩
         · simp
         · intro rs qs h
           simp only [SM.held.injEq] at h
@@ -632,9 +636,8 @@ theorem case_unlockS (hI : InvM p n0 s m) (htodo : (s.th t).todo = .unlockS :: r
     · intro u
       by_cases hu : u = t
       · subst hu
-        refine ⟨⟨.free, cr⟩, ⟨by simpa using hwf, ?_, hc.hW, hc.hR, ?_, ?_⟩⟩
+        refine ⟨⟨.free, cr⟩, ⟨by simpa using hwf, ?_, hc.hW, hc.hR, hc.valid, ?_⟩⟩
         · simp
-        · intro h; simp at h
         · intro rs qs h; cases h
       · refine (hI.thr u).frame (upd_ne _ _ hu) ?_ Iff.rfl (fun h => h) ?_
         · show none = some u ↔ s.holderS = some u
@@ -647,7 +650,7 @@ theorem case_unlockS (hI : InvM p n0 s m) (htodo : (s.th t).todo = .unlockS :: r
 theorem assemble_data {s' : State} {m' : MState} {reg' : Nat} {rs' : RS} {qs' : QS} {cr : RM}
     (hI : InvM p n0 s m) (hh : s.holderS = some t)
     (hW : (cr = .write ↔ s.writerR = some t)) (hR : cr = .read → t ∈ s.readersR)
-    (hV : (t == 0) = true ∨ cr = .read)
+    (hV : cr = .write → (t == 0) = true)
     (hwf : wf (t == 0) p ⟨.held rs' qs', cr⟩ rest = true)
     (hS' : s'.holderS = s.holderS) (hW' : s'.writerR = s.writerR) (hR' : s'.readersR = s.readersR)
     (hth : s'.th = upd s.th t ⟨rest, reg'⟩)
@@ -657,7 +660,7 @@ theorem assemble_data {s' : State} {m' : MState} {reg' : Nat} {rs' : RS} {qs' : 
   · intro u
     by_cases hu : u = t
     · subst hu
-      refine ⟨⟨.held rs' qs', cr⟩, ⟨by rw [hth]; simpa using hwf, ?_, ?_, ?_, fun _ => hV, ?_⟩⟩
+      refine ⟨⟨.held rs' qs', cr⟩, ⟨by rw [hth]; simpa using hwf, ?_, ?_, ?_, hV, ?_⟩⟩
       · rw [hS']; simpa using hh
       · rw [hW']; exact hW
       · rw [hR']; exact hR
@@ -680,7 +683,7 @@ theorem case_readSeq (hI : InvM p n0 s m) (htodo : (s.th t).todo = .readSeq :: r
     have hh : s.holderS = some t := hc.hS.1 (by simp)
     have hH := hc.held rs qs rfl
     simp only [act]
-    refine assemble_data hI hh hc.hW hc.hR (hc.valid (by simp)) hwf rfl rfl rfl rfl hI.run
+    refine assemble_data hI hh hc.hW hc.hR hc.valid hwf rfl rfl rfl rfl hI.run
       ⟨hI.glob.cur, hI.glob.saved, hI.glob.rid, hI.glob.rheld, hI.glob.reg, hI.glob.wr⟩ ?_
     have hb := bound_le (fun h => (hH.used h).1)
     exact ⟨fun _ => rfl, (fun h => by cases h), Nat.lt_of_lt_of_le hH.lo hb, fun h => (hH.q h).mono hb, hH.emp⟩
@@ -692,15 +695,14 @@ theorem case_storeReset (hI : InvM p n0 s m) (htodo : (s.th t).todo = .storeRese
   cases cs with
   | free => simp [wfStep] at hws
   | held rs qs =>
-    simp only [wfStep] at hws
-    split at hws <;> simp at hws
+    simp only [wfStep, Option.some.injEq] at hws
     subst hws
     have hh : s.holderS = some t := hc.hS.1 (by simp)
     have hH := hc.held rs qs rfl
     simp only [act]
     let m' : MState := { m with cur := 1, saved := [], lastFirst := 0 }
     have hstep : mrun p m [Ev.reset] = .ok m' := by simp [mrun, mstep, m']
-    refine assemble_data (m' := m') hI hh hc.hW hc.hR (hc.valid (by simp)) hwf rfl rfl rfl rfl
+    refine assemble_data (m' := m') hI hh hc.hW hc.hR hc.valid hwf rfl rfl rfl rfl
       (mrun_snoc_ok hI.run hstep) ⟨rfl, rfl, hI.glob.rid, hI.glob.rheld, hI.glob.reg, hI.glob.wr⟩ ?_
     have hemp : (if qs = QS.empty then QS.empty else QS.stale) ≠ .stale → s.queue = [] := by
       intro h; split at h
@@ -729,7 +731,7 @@ theorem case_persistIncr (hI : InvM p n0 s m) (htodo : (s.th t).todo = .persistI
     let m' : MState := { m with cur := s.sender + 1, saved := m.saved ++ [(s.th t).reg] }
     have hstep : mrun p m [Ev.assign (s.th t).reg (s.sender + 1) true] = .ok m' := by
       simp [mrun, mstep, m', hI.glob.cur, hreg]
-    refine assemble_data (m' := m') hI hh hc.hW hc.hR (hc.valid (by simp)) hwf rfl rfl rfl rfl
+    refine assemble_data (m' := m') hI hh hc.hW hc.hR hc.valid hwf rfl rfl rfl rfl
       (mrun_snoc_ok hI.run hstep) ⟨rfl, ?_, hI.glob.rid, hI.glob.rheld, hI.glob.reg, hI.glob.wr⟩ ?_
     · show m.saved ++ [(s.th t).reg] = s.persisted ++ [(s.th t).reg]
       rw [hI.glob.saved]
@@ -762,7 +764,7 @@ theorem case_incrOnly (hI : InvM p n0 s m) (htodo : (s.th t).todo = .incrOnly ::
     let m' : MState := { m with cur := s.sender + 1 }
     have hstep : mrun p m [Ev.assign (s.th t).reg (s.sender + 1) false] = .ok m' := by
       simp [mrun, mstep, m', hI.glob.cur, hreg]
-    refine assemble_data (m' := m') hI hh hc.hW hc.hR (hc.valid (by simp)) hwf rfl rfl rfl rfl
+    refine assemble_data (m' := m') hI hh hc.hW hc.hR hc.valid hwf rfl rfl rfl rfl
       (mrun_snoc_ok hI.run hstep) ⟨rfl, hI.glob.saved, hI.glob.rid, hI.glob.rheld, hI.glob.reg, hI.glob.wr⟩ ?_
     have hlo : m.lastFirst < (s.th t).reg := by rw [hreg]; exact hH.lo
     refine ⟨(fun h => by cases h), fun _ => ⟨by simp [view, hreg], fun h => by rw [hp] at h; cases h⟩, hlo, fun h => ?_, hH.emp⟩
@@ -782,18 +784,18 @@ theorem case_enqueue (hI : InvM p n0 s m) (htodo : (s.th t).todo = .enqueue :: r
     cases rs <;> simp only [wfStep] at hws <;> (try (simp at hws; done))
     split at hws <;> simp at hws
     rename_i hcond
-    obtain ⟨hqs, hcr⟩ := hcond
+    obtain ⟨hqs, hcr, hsr⟩ := hcond
     subst hws
     have hh : s.holderS = some t := hc.hS.1 (by simp)
     have hH := hc.held .used qs rfl
     obtain ⟨hreg, hsv⟩ := hH.used rfl
-    have hnw : s.writerR = none := no_writer_of_held hI.glob hc (by simp) hcr
+    have hnw : s.writerR = none := no_writer_of_held hI.glob hc hcr hsr
     have hnr : m.inRegion = false := by
       cases h : m.inRegion with
       | false => rfl
       | true => have := hI.glob.reg h; rw [hI.glob.rheld, hnw] at this; cases this
     simp only [act]
-    refine assemble_data hI hh hc.hW hc.hR (hc.valid (by simp)) hwf rfl rfl rfl rfl hI.run
+    refine assemble_data hI hh hc.hW hc.hR hc.valid hwf rfl rfl rfl rfl hI.run
       ⟨hI.glob.cur, hI.glob.saved, hI.glob.rid, hI.glob.rheld, hI.glob.reg, hI.glob.wr⟩ ?_
     have hq := hH.q hqs
     have hlt : (s.th t).reg < s.sender := by simp only [view] at hreg; omega
@@ -830,7 +832,7 @@ theorem case_enqueueDup {n : Nat} (hI : InvM p n0 s m) (htodo : (s.th t).todo = 
     have hh : s.holderS = some t := hc.hS.1 (by simp)
     have hH := hc.held rs qs rfl
     simp only [act]
-    refine assemble_data hI hh hc.hW hc.hR (hc.valid (by simp)) hwf rfl rfl rfl rfl hI.run
+    refine assemble_data hI hh hc.hW hc.hR hc.valid hwf rfl rfl rfl rfl hI.run
       ⟨hI.glob.cur, hI.glob.saved, hI.glob.rid, hI.glob.rheld, hI.glob.reg, hI.glob.wr⟩ ?_
     have hq := hH.q hqs
     refine ⟨hH.fresh, hH.used, hH.lo, fun _ => ?_, (fun h => by cases h)⟩
@@ -865,7 +867,7 @@ theorem case_dropQ (hI : InvM p n0 s m) (htodo : (s.th t).todo = .dropQ :: rest)
     have hh : s.holderS = some t := hc.hS.1 (by simp)
     have hH := hc.held rs qs rfl
     simp only [act]
-    refine assemble_data hI hh hc.hW hc.hR (hc.valid (by simp)) hwf rfl rfl rfl rfl hI.run
+    refine assemble_data hI hh hc.hW hc.hR hc.valid hwf rfl rfl rfl rfl hI.run
       ⟨hI.glob.cur, hI.glob.saved, hI.glob.rid, hI.glob.rheld, hI.glob.reg, hI.glob.wr⟩ ?_
     refine ⟨hH.fresh, hH.used, hH.lo, fun _ => ?_, fun _ => rfl⟩
     refine ⟨?_, ?_, ?_, ?_, ?_⟩
@@ -894,7 +896,7 @@ theorem case_flush {lim : Option Nat} (hI : InvM p n0 s m) (htodo : (s.th t).tod
     obtain ⟨m', hr', a1, a2, a3, a4, a5, a6⟩ :=
       flush_mon p s.sender s.persisted s.rcount s.writerR.isSome (bound rs (s.th t).reg s.sender) s.queue
         (lim.getD s.queue.length) m hI.glob.saved hI.glob.rid hI.glob.rheld hI.glob.reg hq
-    refine assemble_data (m' := m') hI hh hc.hW hc.hR (hc.valid (by simp)) hwf rfl rfl rfl rfl
+    refine assemble_data (m' := m') hI hh hc.hW hc.hR hc.valid hwf rfl rfl rfl rfl
       (mrun_snoc_ok hI.run hr') ⟨?_, ?_, ?_, ?_, a5, hI.glob.wr⟩ ?_
     · rw [a1]; exact hI.glob.cur
     · rw [a2]; exact hI.glob.saved
@@ -949,7 +951,7 @@ theorem inv_init {p : Bool} {n0 : Nat} (hn : 0 < n0) {progs : Nat → List Step}
     · simp [initRaw]
     · simp [initRaw]
     · intro h; cases h
-    · intro h; exact absurd rfl h
+    · intro h; cases h
     · intro rs qs h; cases h
   · intro _
     refine ⟨hn, ?_, ?_, ?_, ?_⟩ <;> simp [view, initRaw, minit]
@@ -964,12 +966,33 @@ theorem wfTo_queueForSend (sess p : Bool) :
     wfTo sess p ⟨.free, .none⟩ (prog_queueForSend p) = some ⟨.free, .none⟩ := by
   cases sess <;> cases p <;> rfl
 
-theorem wfTo_appProg (p : Bool) (k : Nat) :
-    wfTo false p ⟨.free, .none⟩ (appProg p k) = some ⟨.free, .none⟩ := by
-  induction k with
-  | zero => rfl
-  | succ k ih =>
-    simp only [appProg, wfTo_append, wfTo_queueForSend false p, Option.bind_some, ih]
+theorem wfTo_sendInReplyTo (sess p : Bool) (lim : Option Nat) :
+    wfTo sess p ⟨.free, .none⟩ (prog_sendInReplyTo p lim) = some ⟨.free, .none⟩ := by
+  cases sess <;> cases p <;> simp [prog_sendInReplyTo, prog_prep, wfTo, wfStep]
+
+theorem wfTo_dropAndReset (sess p : Bool) :
+    wfTo sess p ⟨.free, .none⟩ prog_dropAndReset = some ⟨.free, .none⟩ := by
+  simp [prog_dropAndReset, wfTo, wfStep]
+
+/-- a foreign goroutine's calls: SendToTarget, and ResetSession with any ShutdownNow outcome -/
+theorem wfTo_acall (p : Bool) (c : ACall) :
+    wfTo false p ⟨.free, .none⟩ (c.prog p) = some ⟨.free, .none⟩ := by
+  cases c with
+  | queueForSend => exact wfTo_queueForSend false p
+  | resetSession sd =>
+    simp only [ACall.prog, prog_resetSession, wfTo_append]
+    cases sd with
+    | nothing => simp [prog_shutdownNow, wfTo, wfTo_dropAndReset]
+    | logout l lim =>
+      cases l
+      · simp [prog_shutdownNow, prog_sendInReplyToFull, wfTo_queueForSend, wfTo_dropAndReset]
+      · simp [prog_shutdownNow, prog_sendInReplyToFull, wfTo_sendInReplyTo, wfTo_dropAndReset]
+
+theorem wfTo_apps (p : Bool) (calls : List ACall) :
+    wfTo false p ⟨.free, .none⟩ (calls.flatMap (ACall.prog p)) = some ⟨.free, .none⟩ := by
+  induction calls with
+  | nil => rfl
+  | cons c cs ih => simp only [List.flatMap_cons, wfTo_append, wfTo_acall, Option.bind_some, ih]
 
 theorem wfTo_ebs (p l : Bool) (n : Nat) (lim : Option Nat) (r : RM) :
     wfTo true p ⟨.free, r⟩ (prog_enqueueBytesAndSend l n lim) = some ⟨.free, r⟩ := by
@@ -986,11 +1009,11 @@ theorem wfTo_scall (p : Bool) (c : SCall) :
     wfTo true p ⟨.free, .none⟩ (c.prog p) = some ⟨.free, .none⟩ := by
   cases c with
   | queueForSend => exact wfTo_queueForSend true p
-  | sendInReplyTo lim => cases p <;> simp [SCall.prog, prog_sendInReplyTo, prog_prep, wfTo, wfStep]
+  | sendInReplyTo lim => exact wfTo_sendInReplyTo true p lim
   | dropAndSendInReplyTo reset lim =>
     cases p <;> cases reset <;> simp [SCall.prog, prog_dropAndSendInReplyTo, prog_prep, wfTo, wfStep]
   | sendAppMessages l lim => cases l <;> simp [SCall.prog, prog_sendAppMessages, wfTo, wfStep]
-  | dropAndReset => simp [SCall.prog, prog_dropAndReset, wfTo, wfStep]
+  | dropAndReset => exact wfTo_dropAndReset true p
   | enqueueBytesAndSend l n lim => exact wfTo_ebs p l n lim .none
   | resendMessages items =>
     simp only [SCall.prog, prog_resendMessages, wfTo_append]
